@@ -675,8 +675,18 @@ struct World {
 };
 
 // ============================================================================================ one case
+// Session ids come from a process-wide counter that cannot be reset, and session-level clauses are built from the id strings.  So that a
+// case is the same whatever ran before it in the process (worker partition, restart after a crash, --replay of one case), ids are burnt
+// until the next one is X100 for some digit string X: every case then sees ids X100, X101, ... -- same lengths, same common prefix, same
+// numeric order, same last digits as in a fresh process (where X is empty), which is all the clause forms depend on.
+static void AlignSessionIds()
+{
+   for (int i = 0; i < 1100; i++) { DumbReflectSession d; if (d.GetSessionID() % 1000 == 99) return; }
+   rb::Abort("cannot align the session id counter");
+}
 static void RunCase(long k, uint64_t cs, long nMsgs, long nTrav)
 {
+   AlignSessionIds();
    g = vh::Rng(cs);
    World W; W.caseNo = k;
    const bool litBias = (R(3) == 0);                     // a third of the trees: mostly literal clauses, so that hash lookups dominate
